@@ -155,7 +155,7 @@ def ensure_runner():
             ok, out = ensure_makefile()
             if not ok:
                 return False, out
-            rc, out = sh(["make", "-j", str(NPROC), "Extract/Extract.vo"], cwd=COQ, timeout=3000)
+            rc, out = sh(["make", "-j", str(NPROC), "Extract/Extract.vo", "Extract/ExtractFs.vo"], cwd=COQ, timeout=3000)
             if rc != 0:
                 return False, "extraction build failed:\n" + out[-3000:]
         ml = os.path.join(OCAML, "model.ml")
@@ -170,6 +170,15 @@ def ensure_runner():
                          cwd=OCAML, timeout=900)
             if rc != 0:
                 return False, "ocaml build failed:\n" + out[-3000:]
+        for exe in ("tbrunner",):
+            pass
+        fsml = os.path.join(OCAML, "fsmodel.ml")
+        fsbin = os.path.join(OCAML, "fsrunner")
+        if os.path.exists(fsml) and os.path.exists(os.path.join(OCAML, "fsrunner.ml")):
+            if (not os.path.exists(fsbin)) or any(os.path.getmtime(x) > os.path.getmtime(fsbin) for x in [fsml, os.path.join(OCAML, "fsrunner.ml")]):
+                rc, out = sh(["ocamlfind", "ocamlopt", "-O3", "-w", "-a", "fsmodel.mli", "fsmodel.ml", "fsrunner.ml", "-o", "fsrunner"], cwd=OCAML, timeout=900)
+                if rc != 0:
+                    return False, "ocaml build (fsrunner) failed:\n" + out[-3000:]
         for exe in ("tbrunner",):
             src = os.path.join(OCAML, exe + ".ml")
             binp = os.path.join(OCAML, exe)
@@ -391,6 +400,8 @@ def match_finding(prop, hist_text, fail, findings):
             continue
         if "detail_regex" in m and not re.search(m["detail_regex"], fail["detail"]):
             continue
+        if "fs_expected" in m and fail.get("fs_expected") != m["fs_expected"]:
+            continue
         return f
     return None
 
@@ -465,6 +476,24 @@ PROPS["C09"] = dict(engine="tree", profiles=[("blob", 4, True), ("filter", 1, Tr
                     relevant=lambda f: f["kind"] in (BLOB_KINDS | {"gc-ghost", "inv", "reopen-diff"} | COMMON_KINDS),
                     nontrivial=lambda st: st.get("gc_entries_checked", 0) >= 1 and st.get("merge_steps", 0) + st.get("drop_steps", 0) >= 1)
 
+FS_KINDS = {"protocol", "protocol-blob-dir-fsync", "crash-unrecoverable", "crash-mixture", "crash-undoes-returned-op", "model-recover-mismatch",
+            "fault-panic", "fault-state-changed", "fault-unrecoverable", "leak", "live-file-missing", "engine-error"}
+FS_TB = [
+    "file-system model coq/Model/Fs.v (durable/volatile split per file and per directory entry; crash = any prefix-closed subset of unsynced effects) is tied to the crate by strace: every syscall of every operation is translated to the model's fsop and the extracted protocol_ok / crash_images / recover_dir / reclaim run on it (ocaml/fsrunner.ml, bin/fs_engine.py, docs/FS_ENGINE.md)",
+    "strace 6.1 (syscall capture and -e inject fault injection), the Linux tmpfs/ext4 semantics of the sandbox for the materialised crash images; the model's crash semantics (no reordering barrier except fsync of the file / of the directory) is an assumption about POSIX file systems, not verified",
+    "extraction for this engine: Extract/ExtractFs.v, ExtrOcamlBasic only",
+]
+FS_ASSUME = ["partial: the theorem is about the protocol model; the kernel/file system is modelled (Fs.v), not verified; torn sector writes inside one write() are modelled as prefix tokens only",
+             "crash points are enumerated at syscall granularity on captured traces (all points, sampled subsets of unsynced effects in quick tier)"]
+PROPS["C05"] = dict(engine="fs", fs_mode="crash", profiles=[("fs", 1, False)], n_ops=20, quick=1, thorough=1,
+                    relevant=lambda f: True, nontrivial=lambda st: True, tb_extra=FS_TB, assumptions=FS_ASSUME,
+                    rule="histories from bin/fs_engine.py (put/remove/flush/compact/major/ingest/droprange/clear/reopen on plain and KV-separated trees), run under strace; each operation's syscall segment is checked with the extracted protocol_ok, then crash images (every syscall boundary x subsets of unsynced effects) are materialised as real directories and opened by the real crate: the recovered state must be the state before or after the operation, never a mixture, and never older than a returned operation. evaluations = histories; distinct_nontrivial = histories with at least one published version")
+PROPS["C16"] = dict(engine="fs", fs_mode="fault", profiles=[("fs", 1, False)], n_ops=20, quick=1, thorough=1,
+                    relevant=lambda f: True, nontrivial=lambda st: True, tb_extra=FS_TB, assumptions=FS_ASSUME,
+                    rule="for each history each file-system syscall of the target operation (open/write/fsync/rename/unlink/mkdir) is failed in turn with strace -e inject (EIO/ENOSPC): the operation must return Err without panic, the observable tree (reads, dump) must equal the state before the operation, a retry must succeed, and the directory must still recover. evaluations = histories; each history contributes one run per injected fault point (stats.fault_runs)")
+PROPS["C20"] = dict(engine="fs", fs_mode="reclaim", profiles=[("fs", 1, False)], n_ops=20, quick=1, thorough=1,
+                    relevant=lambda f: True, nontrivial=lambda st: True, tb_extra=FS_TB, assumptions=FS_ASSUME,
+                    rule="after every operation (no snapshot or iterator alive) the directory listing of tables/ and blobs/ is compared with the files named by the current version (and by versions still retained by an open snapshot): a file not named = leak, a named file missing = live-file-missing; the extracted reclaim function of the model is run on the same state and must delete exactly the same set. evaluations = histories; dumps = directory listings compared")
 PROPS["C10"] = dict(engine="corrupt", profiles=[("corrupt", 1, False)], n_ops=40, quick=24, thorough=48,
                     relevant=lambda f: f["kind"] in ({"corrupt-different"} | COMMON_KINDS),
                     nontrivial=lambda st: st.get("mutations", 0) >= 50 and st.get("mutations_error", 0) >= 10)
@@ -598,6 +627,40 @@ def multi_engine(prop, tier, seed, count_override, coq):
         for r in ex.map(one, jobs):
             all_results += r
     return finish(prop, tier, seed, spec, all_results, [], coq, workdir, t0)
+
+
+# ----------------------------------------------------------------------------- file-system engine (C05 / C16 / C20)
+
+def fs_engine(prop, tier, seed, count_override, coq):
+    """strace-based engine (bin/fs_engine.py, docs/FS_ENGINE.md): real syscall traces are checked
+    with the extracted protocol_ok / recover_dir, crash images are materialised and opened by the
+    real crate (C05), syscalls are failed one at a time with strace -e inject (C16), and the
+    directory listing is compared with what the retained versions name (C20)"""
+    import importlib
+    spec = PROPS[prop]
+    t0 = time.time()
+    fs = importlib.import_module("fs_engine")
+    res = fs.run(spec["fs_mode"], tier, seed)
+    all_results = []
+    stats = {k: v for k, v in res.get("stats", {}).items() if isinstance(v, int)}
+    stats["fs_histories"] = res.get("stats", {}).get("histories", 0)
+    per_hist = {}
+    for f in res.get("fails", []):
+        hist = f.get("history", "")
+        fd = {"kind": f["kind"], "op": -1, "snap": 0, "optext": "", "detail": (f.get("detail", "") + " " + str(f.get("where", "")))[:400],
+              "line": "FAIL kind=%s %s" % (f["kind"], f.get("detail", "")[:300]), "fs_expected": f.get("expected"), "fs_direct": str(f.get("direct")) == "True",
+              "fs_replay": f.get("replay_cmd")}
+        per_hist.setdefault(hist, []).append(fd)
+    first = True
+    for hist, fails in per_hist.items():
+        all_results.append((hist, hist, fails, [], stats if first else {}))
+        first = False
+    if first:
+        # no failures: one synthetic entry carrying the statistics
+        hdir = os.path.join(WORK, "fs", "hist")
+        all_results.append((os.path.join(hdir, "none"), "", [], [], stats))
+    samples = res.get("samples", [])[:2]
+    return finish(prop, tier, seed, spec, all_results, [], coq, os.path.join(WORK, prop), t0, extra_samples=samples, evaluations=stats.get("fs_histories", 0), nontrivial_override=stats.get("fs_histories", 0))
 
 
 # ----------------------------------------------------------------------------- corruption enumeration (C10)
@@ -736,7 +799,7 @@ def tree_engine(prop, tier, seed, count_override, coq):
     return finish(prop, tier, seed, spec, all_results, gen_errs, coq, workdir, t0)
 
 
-def finish(prop, tier, seed, spec, all_results, gen_errs, coq, workdir, t0):
+def finish(prop, tier, seed, spec, all_results, gen_errs, coq, workdir, t0, extra_samples=None, evaluations=None, nontrivial_override=None):
     findings = load_findings()
     relevant = spec["relevant"]
     violations, known_hits = [], {}
@@ -776,6 +839,22 @@ def finish(prop, tier, seed, spec, all_results, gen_errs, coq, workdir, t0):
                 f0["tbench_case"], chosen["line"],
                 "" if direct else "# no read returned a wrong item; what no longer checks: byte-level correspondence '%s' between the crate's encoder and the Coq codec (theorems C12_datablock_* are about the modelled format)\n" % f0["kind"]))
             reported.append((rp, chosen, note))
+            continue
+        if spec.get("engine") == "fs":
+            kf = None
+            for f in rel:
+                k2 = match_finding(prop, text, f, findings)
+                if k2:
+                    known_hits[k2["id"]] = k2
+            rel_unknown = [f for f in rel if not match_finding(prop, text, f, findings)]
+            if not rel_unknown:
+                continue
+            f0 = next((f for f in rel_unknown if f.get("fs_direct")), rel_unknown[0])
+            hid = hashlib.sha1((text + f0["line"]).encode()).hexdigest()[:10]
+            rp = os.path.join(EVID, "replays", f"{prop}-{hid}.hist")
+            note = "" if f0.get("fs_direct") else " no-failing-input-found"
+            open(rp, "w").write("# replay: python3 bin/fs_engine.py --mode %s --replay %s\n# failure: %s\n# %s\n%s" % (spec["fs_mode"], os.path.relpath(rp, ROOT), f0["line"], f0.get("fs_replay") or "", text))
+            reported.append((rp, f0, note))
             continue
         if text.startswith("# corruption enumeration") or spec.get("engine") == "multi":
             kf = match_finding(prop, text, f0, findings)
@@ -861,19 +940,19 @@ def finish(prop, tier, seed, spec, all_results, gen_errs, coq, workdir, t0):
         "coverage": {
             "obligations": coq["obligations"], "discharged": coq["discharged"],
             "checker_cmd": f"make -C coq Props/{prop}.vo && coqc -Q coq LsmV coq/Props/{prop}.v (Print Assumptions per theorem)",
-            "trusted_base": TRUSTED_BASE,
+            "trusted_base": TRUSTED_BASE + spec.get("tb_extra", []),
             "theorems": coq.get("theorems", []),
             "axioms_reported": coq.get("axioms", []),
-            "evaluations": len(all_results),
-            "distinct_nontrivial": nontrivial,
-            "rule": "histories generated from one PRNG seed per history (profiles %s, %d ops each) plus the corpus; distinct = distinct history text; non-trivial = at least one flush, one table-rewriting compaction and one point read answered from a table (plus the property's own condition)" % ([p for p, _, _ in spec["profiles"]], spec["n_ops"]),
-            "samples": samples,
+            "evaluations": evaluations if evaluations is not None else len(all_results),
+            "distinct_nontrivial": nontrivial_override if nontrivial_override is not None else nontrivial,
+            "rule": spec["rule"] if "rule" in spec else "histories generated from one PRNG seed per history (profiles %s, %d ops each) plus the corpus; distinct = distinct history text; non-trivial = at least one flush, one table-rewriting compaction and one point read answered from a table (plus the property's own condition)" % ([p for p, _, _ in spec["profiles"]], spec["n_ops"]),
+            "samples": (extra_samples or samples),
             "traces_validated_against_impl": len(all_results),
             "impl_stats": agg,
             "model_drift": drift_lines[:10],
             "known_findings_hit": sorted(known_hits),
         },
-        "assumptions": ["see trusted_base; sequential histories (concurrency is C06)", "Bloom filter as an arbitrary no-false-negative predicate at this level (byte level: C12)"],
+        "assumptions": spec.get("assumptions", ["see trusted_base; sequential histories (concurrency is C06)", "Bloom filter as an arbitrary no-false-negative predicate at this level (byte level: C12)"]),
         "wall_s": round(time.time() - t0, 1),
         "violations": len(reported) + (1 if proof_broken else 0),
     }
@@ -918,6 +997,8 @@ def run_check(prop, tier, seed, replay, count_override):
     eng = PROPS[prop]["engine"]
     if eng == "tree":
         return tree_engine(prop, tier, seed, count_override, coq)
+    if eng == "fs":
+        return fs_engine(prop, tier, seed, count_override, coq)
     if eng == "corrupt":
         return corrupt_engine(prop, tier, seed, count_override, coq)
     if eng == "conc":
